@@ -449,7 +449,7 @@ func (e *Engine) explore(ob *Obligation) *ObResult {
 	active := 0
 	idle := 0
 	cond := sync.NewCond(&mu)
-	seenViol := map[string]bool{}
+	seenViol := map[string]int{}
 	nw := e.cfg.Workers
 	var wg sync.WaitGroup
 	stopProg := make(chan struct{})
@@ -542,8 +542,9 @@ func (e *Engine) explore(ob *Obligation) *ObResult {
 				}
 				for _, v := range res.Violations {
 					key := v.Label + "|" + v.Kind + "|" + v.Site + "|" + strings.Join(v.KFs, ",") + fmt.Sprint(v.Outside)
-					if !seenViol[key] {
-						seenViol[key] = true
+					// up to three counterexamples per assertion: alternates for the native replay (models differ)
+					if seenViol[key] < 3 {
+						seenViol[key]++
 						r.Violations = append(r.Violations, v)
 					}
 				}
